@@ -96,6 +96,7 @@ def TRANSX_H(prop, only=None):
     return H('transx', 'oracle_transx', 20000, 1000000, spec_level=True,
              nontrivial=lambda op, impl: op.count('(') >= 2, extra=dict(quick=extra, thorough=extra))
 
+MISC_H = H('misc', 'oracle_misc', 6000, 600000, spec_level=True)
 COLL_H = H('coll', 'oracle_coll', 4000, 400000, spec_level=True, project=project_coll)
 
 MONAD_H = [H('monad_' + p, 'oracle_monad', 3000, 150000, oracle_args=[p], spec_level=True) for p in ('try', 'option', 'either', 'statet')]
@@ -224,7 +225,7 @@ CHECKS = {
                      'the stress part (real goroutines, no hooks) is not reproducible from the seed'],
     ),
     'C06': dict(
-        spec=['FpVerif.Spec.C06', 'FpVerif.Spec.C06Sound', 'FpVerif.Spec.C06Live', 'FpVerif.Spec.C06Chain', 'FpVerif.Spec.C06Drain', 'FpVerif.Spec.C06Once'],
+        spec=['FpVerif.Spec.C06', 'FpVerif.Spec.C06Sound', 'FpVerif.Spec.C06Live', 'FpVerif.Spec.C06Chain', 'FpVerif.Spec.C06Drain', 'FpVerif.Spec.C06Once', 'FpVerif.Spec.C14MiscFut'],
         harnesses=[H('future', 'oracle_future', 3000, 150000, spec_level=True, project=project_future)],
         level='proof',
         level_note='trusted: Lean kernel (propext/Classical.choice/Quot.sound only); model fidelity checked by correspondence (statuses of every future, '
@@ -288,16 +289,21 @@ CHECKS = {
                      'user callbacks do not panic in the theorems'],
     ),
     'C14': dict(
-        spec=['FpVerif.Spec.C14', 'FpVerif.Spec.C14Fut'],
+        spec=['FpVerif.Spec.C14', 'FpVerif.Spec.C14Fut', 'FpVerif.Spec.C14Misc', 'FpVerif.Spec.C14MiscFut'],
         harnesses=[H('arity', 'oracle_arity', 16000, 1600000, spec_level=True,
                      nontrivial=lambda op, impl: op.count(' ') >= 3),
                    # the eq/ord/hash/monoid/clone TupleN families live in the typeclass machinery (C09-C11, C18)
                    H('tc', 'oracle_tc', 1500, 100000, spec_level=True),
                    H('clone', 'oracle_clone', 2000, 100000, spec_level=True),
                    # future ChainN/ApplicativeN builders and the func_gen.go families: derived programs over the network model of C06
-                   H('future', 'oracle_future', 3000, 150000, spec_level=True, project=project_future)],
+                   H('future', 'oracle_future', 3000, 150000, spec_level=True, project=project_future),
+                   # non-indexed conversions, predicate / PartialFunc combinators, monoid adapters (work package ARITY2)
+                   MISC_H],
         level='proof',
-        modelled='future ChainN/MonadChainN, ApplicativeN/ApplicativeFunctorN (every method at every receiver arity 1..9, in one go or staged), LiftAN, '
+        modelled='Non-indexed conversions and adapters (Model/Misc.lean, Spec/C14Misc.lean, misc harness): as.PartialFunc/SeqNonNil/Ptr/Interface/Any/InstanceOf/Named/NamedWithTag/MapEntry/Left/Right/'
+                 'Generic/Supplier/Predicate, fp.Predicate.Negate/And/Or, fp.Not/And/Or, fp.PartialFunc.Unapply/OrElse, fp.ConvertNumber (integer types), fp.IsInstanceOf, fp.ConstS/With/Test/TestWith/Max, '
+                 'fp.RuntimeNamed accessors, product.FromHNil/MapKey/MapValue/LiftKey/LiftValue/Split, hlist.Unapply, unit.Func0/Failure, lazy.Func1..3 (memoised Call), future.TraverseFunc, monoid.Future '
+                 '(Model/FutureMisc.lean). future ChainN/MonadChainN, ApplicativeN/ApplicativeFunctorN (every method at every receiver arity 1..9, in one go or staged), LiftAN, '
                  'LiftMN, FlapN, MethodN, FlatMethodN, FuncN, UnitN, ComposeN, Zip/Zip3 - each modelled ONCE, arity-generically, as derived programs over '
                  'the network model of C06 (Model/FutureChain.lean); theorems for all N in Spec/C14Fut.lean (denotation = do-notation reading over fp.Try; '
                  'construction runs no user code). '
@@ -310,7 +316,9 @@ CHECKS = {
                  '(correspondence only) - each modelled ONCE, arity-generically, following the recursion of its template; theorems by '
                  'induction for all N; the harness has one generated call site per member x arity that exists in the source '
                  '(regex scan + internal/max/max.go, coverage discrepancies are direct failures).',
-        assumptions=['all type parameters are instantiated at `any` (and a Named int for LabelledN): Go\'s type checker already '
+        assumptions=['type assertions are modelled through the relation hasType (dynamic type x target type), instantiated at int, string, a Named int, an error type, fp.Unit, nil and the '
+                     'interfaces fp.Named, error, any; fp.ConvertNumber / fp.Max: integer (and string) instantiations only; as.Ptr: pointers are indices into a list-shaped heap',
+                     'all type parameters are instantiated at `any` (and a Named int for LabelledN): Go\'s type checker already '
                      'guarantees that a value of type Ai only flows where an Ai is expected',
                      'callbacks are arbitrary GoM computations (may log and panic); lazy.Eval thunks may log but do not panic',
                      'operands handed to the try builders as values are not the zero-value Try{} (stated as the excluded branch)',
@@ -398,8 +406,10 @@ CHECKS_TC = {
                      '(note:seq.Sort-mutated-its-input(C04)), a failure only with the harness flag -c04'],
     ),
     'C11': dict(
-        spec=['FpVerif.Spec.C11'],
-        harnesses=[H('tc', 'oracle_tc', 3000, 300000, extra=_only('mon,sg'))],
+        spec=['FpVerif.Spec.C11', 'FpVerif.Spec.C14Misc'],
+        harnesses=[H('tc', 'oracle_tc', 3000, 300000, extra=_only('mon,sg')),
+                   # monoid adapters SemigroupFunc.Empty/Curried, EmptyFunc.Empty, monoid.ToMonoid/Curried (toMonoid_lawful_iff ...)
+                   H('misc', 'oracle_misc', 3000, 300000, spec_level=True)],
         level='proof',
         modelled='monoid.go (SemigroupFunc, Sum, Product, monoid); monoid/monoid_op.go (New, String, Sum, Product, Option, Try, '
                  'MergeSeq, MergeSlice, HNil, HCons, Endo, Dual, Eval, Any, All, IMap, MergeMap, MergeSet, MergeGoMap, Ptr, Unit) '
